@@ -997,11 +997,21 @@ impl Databases {
     }
 
     pub fn add_database(&self, database: Database) -> Response {
+        let mut database = database;
         let db_name = database.name.to_string();
         log::debug!("add_database {}", db_name);
         let mut dbs = self.map.write().unwrap();
         match dbs.get(&database.name.to_string()) {
             None => {
+                // The id was chosen before this lock was taken: when another database got the same
+                // one meanwhile (two create-db at the same time) this one takes the next free id
+                if dbs.values().any(|db| db.metadata.id == database.metadata.id) {
+                    database.metadata.id = dbs
+                        .values()
+                        .map(|db| db.metadata.id + 1)
+                        .max()
+                        .unwrap_or(0);
+                }
                 let mut id_name_db_map = self.id_name_db_map.write().unwrap();
                 id_name_db_map.insert(database.metadata.id as u64, database.name.to_string());
                 dbs.insert(db_name.to_string(), database);
